@@ -4,7 +4,7 @@ TLC explores every load / load_external / set_permission / link history within t
 .cfg (BFS, history hidden by VIEW, every transition emitted with a shortest behaviour to it) and checks
 BindLatest / RedefRejected / UndefinedReported / LocalBinding / OldBindingsStable on the model; every
 emitted behaviour is replayed on a real MIR context by harness/c13_link.c."""
-import json, os, subprocess, sys, copy, threading, time
+import atexit, json, os, subprocess, sys, copy, threading, time
 from concurrent.futures import ThreadPoolExecutor
 import vlib
 from vlib import Check, run_tlc, tlc_ok, MachineryError
@@ -46,13 +46,18 @@ _exe_lock = threading.Lock()
 
 
 def harness_exe():
+    """Library objects of the current tree (vlib cache) + the driver, linked once per run into out/hbuild (the object
+    cache may be pruned by concurrent checks while this one is running; the executable must not live there)."""
     global _exe
     with _exe_lock:
         if _exe is None:
             d, objs, cc, flags = vlib.build_lib("plain", units=("mir.c", "mir-gen.c"))
-            tmp = os.path.join(d, "c13_link.%d" % os.getpid())
-            vlib.cc_link(cc, flags, [os.path.join(vlib.HARNESS, "c13_link.c")], objs, tmp)
-            _exe = tmp
+            hb = os.path.join(vlib.OUT, "hbuild")
+            os.makedirs(hb, exist_ok=True)
+            exe = os.path.join(hb, "c13_link-%d" % os.getpid())
+            vlib.cc_link(cc, flags, [os.path.join(vlib.HARNESS, "c13_link.c")], objs, exe)
+            atexit.register(lambda: os.path.exists(exe) and os.unlink(exe))
+            _exe = exe
     return _exe
 
 
